@@ -9,6 +9,11 @@ if os.path.isdir(_cd):  # one file per property (written by whoever builds that 
     for _f in sorted(os.listdir(_cd)):
         if _f.endswith(".json"):
             claims.update(json.load(open(os.path.join(_cd, _f))))
+_hold = os.path.join(ROOT, "tools", "hold.json")   # {"CNN": "reason"}: claims temporarily withdrawn (check being adapted)
+if os.path.exists(_hold):
+    for _p, _r in json.load(open(_hold)).items():
+        if _p in claims:
+            claims[_p] = dict(claims[_p], claimed=False, reason=_r)
 props = [json.loads(l) for l in open(os.path.join(ROOT, "properties.jsonl"))]
 checks, na = [], []
 for p in props:
